@@ -139,6 +139,89 @@ PROPS["C07"] = dict(
     assumptions=["memory orderings not modelled", "callers of hot_reload hold no guard"],
 )
 
+PROPS["C16"] = dict(
+    technique="Coq proof about the SharedBytes machine (allocator ledger + reference count; constructors, "
+              "clone, the two halves of drop and deref as atomic steps in every order) and about a UTF-8 "
+              "recogniser (exactly the encodings of Unicode scalar values); syntactic tie of "
+              "src/utils/bytes.rs / string.rs to the machine's steps and layouts; op scripts on the real "
+              "types under an accounting global allocator and byte strings through std / SharedString "
+              "evaluated against the model inside Coq",
+    level_text="Theorems (Props/C16.v, closed under the global context): for every sequence of atomic steps "
+               "(any interleaving of clones and drops of any number of values): no double free, no "
+               "release with another layout than allocated, no use after free; count = number of values; a "
+               "value's blocks stay allocated while anybody owns it; once everybody let go nothing is left "
+               "and releases = allocations; a deref after any history yields the constructor's bytes.  "
+               "UTF-8: valid <-> encoding of scalar values, decode inverts encode, encode injective.  The "
+               "printed code performs these steps (one fetch_add / fetch_sub(1) == 1 -> drop_slow, "
+               "drop_slow's layout choice on capacity != 0, from_slice / from_vec headers), every other "
+               "constructor funnels into the two, eq/cmp/hash go through deref, from_utf8 validates before "
+               "it builds.  Partial: memory orderings (Release/Acquire) are checked syntactically only; the "
+               "machine is sequentially consistent.",
+    level_note="Trusted: the system allocator and the accounting wrapper (harness/src/ledger.rs); "
+               "size_of::<Inner>() = 32 and Layout::extend as modelled (checked by the ledger on this "
+               "64-bit target); std::str::from_utf8 is tied to the recogniser by cases only "
+               "(all 1-byte, edge 2..4-byte forms, damaged texts).  Deserialisation (serde feature) is not "
+               "built into the harness: covered by the same std functions it calls, not exercised.",
+    gen=["Bytes"],
+    model_files=["Ref/Bytes.v", "Ref/Utf8.v", "Corr/BytesCheck.v"],
+    model_targets=["Corr/BytesCheck.vo"],
+    proof_files=["Proofs/Bytes.v", "Proofs/Utf8.v", "Tie/Bytes.v", "Props/C16.v"],
+    proof_targets=["Props/C16.vo"],
+    props_module="Props.C16",
+    theorems=["C16_code_as_modelled", "C16_other_constructors_funnel", "C16_compare_as_slices",
+              "C16_string_validates_then_builds", "C16_deref_is_source", "C16_no_memory_errors",
+              "C16_count_is_owners", "C16_blocks_live_while_owned", "C16_released_exactly_once",
+              "C16_valid_iff_encoding", "C16_decode_encode", "C16_encode_injective", "C16_nonvacuous"],
+    engines=[("bytesdiff", [])],
+    rule="bytesdiff: 250 (quick) / 1500 (thorough) scripts over 10 constructor paths (slice, From<&[u8]>, "
+         "Cow borrowed/owned, Vec with excess / zero / unused capacity, Box, exact and growing iterators), "
+         "clone (also From<&SharedBytes>), deref, drop here or on another thread; each step's net ledger "
+         "effect and bytes are compared with Ref.Bytes inside Coq; ~4000 (quick) / ~37000 (thorough) byte "
+         "strings through std::str::from_utf8 (+valid_up_to) and SharedString::from_utf8 compared with "
+         "Ref.Utf8; monitors: dealloc layout = alloc layout, no unknown block freed, nothing left after the "
+         "last drop incl. 30 / 200 multi-threaded clone/drop storms, eq/ord/hash/partial_cmp as slices.",
+    trusted_base=["accounting allocator harness/src/ledger.rs", "System allocator"],
+    modelled=["heap as a ledger of (id, layout) blocks, ids never reused", "Inner as (count, bytes, capacity)",
+              "atomics as sequentially consistent steps"],
+    assumptions=["64-bit target (header = 32 bytes, align 8)", "len <= isize::MAX (else get_inner_layout panics)"],
+)
+
+PROPS["C17"] = dict(
+    technique="Coq proof about the OnceInitCell state machine (K threads, every outcome script, every "
+              "schedule; both needs_drop paths), once_cell semantics built in; syntactic tie of "
+              "src/utils/cell.rs to the machine's step order; exhaustive outcome scripts on the real cell "
+              "with a drop ledger",
+    level_text="Theorems (Props/C17.v, closed under the global context): for every list of initialiser "
+               "outcomes (succeed/fail/panic), every schedule and both seed kinds: successes = 1 iff "
+               "initialised, exactly one of seed and value lives in the cell, the seed is dropped at most "
+               "once and only after initialisation, a failure or panic keeps the seed and hands out no "
+               "value; after quiescence + Drop the seed was dropped exactly once and the value exactly "
+               "once iff it existed; the no-drop path never drops a seed.  The printed source has the "
+               "step order the machine assumes (user initialiser before the union is touched, seed "
+               "dropped outside the OnceCell closure, Drop picks the arm from the once state).",
+    level_note="Trusted: once_cell::sync::OnceCell (at most one running initialiser, failure/panic leaves it "
+               "empty, get never blocks), union/ManuallyDrop semantics of rustc (memory safety is not "
+               "modelled), unwinding out of drop_cold with a panicking seed destructor is sampled only.",
+    gen=["Cell"],
+    model_files=["Ref/OnceInit.v"],
+    model_targets=["Ref/OnceInit.vo"],
+    proof_files=["Proofs/OnceInit.v", "Tie/Cell.v", "Props/C17.v"],
+    proof_targets=["Props/C17.vo"],
+    props_module="Props.C17",
+    theorems=["C17_code_as_modelled", "C17_initialised_once_all_schedules", "C17_each_dropped_exactly_once",
+              "C17_no_drop_path_never_drops_the_seed", "C17_nonvacuous"],
+    engines=[("oncediff", [])],
+    rule="oncediff: every outcome script over {succeed, fail, panic} up to length 4 (quick) / 5 (thorough) "
+         "run sequentially and with one thread per outcome behind a barrier, on a cell with a tracked seed "
+         "(destructor counted), a seed without destructor (no-drop path) and a seed whose destructor "
+         "panics; monitors: successful initialisers = initialised, all Ok callers got one address, a later "
+         "attempt succeeds after failures, get() returns at once while an initialiser sleeps, ledger after "
+         "dropping the cell shows seed and value dropped exactly once.",
+    trusted_base=["once_cell OnceCell semantics as built into Ref/OnceInit.v", "thread scheduler (sampled interleavings)"],
+    modelled=["OnceCell as a lock bit + set bit", "the union as (seed_in_cell, inited)"],
+    assumptions=["initialisers do not re-enter the same cell"],
+)
+
 PROPS["C15"] = dict(
     technique="Coq proof about the reloader loop as a state machine over two crossbeam-style channels "
               "(idle blocks, no busy iteration, exit at the next iteration once the cache-message "
